@@ -191,7 +191,39 @@ def extra_checks(tier):
         if rec.escaped or (answerable and not rec.raw):
             tw.append({"scenario": sc, "observed": L.observation(rec)})
     res["twisted-udp-entry"] = {"evaluations": 10, "failures": tw, "broken": [], "samples": [], "keys": []}
+    res["udp-sender-isolation"] = udp_sender_isolation(tier)
     return res
+
+
+def udp_isolation_one(fe, cut, tid_a, tid_b):
+    """sender 1 sends a truncated datagram, then sender 2 a complete request: sender 2 must get exactly one
+    response carrying its own transaction id, and nothing else may be transmitted"""
+    a = L.adu("socket", tid_a, 1, bytes([6]) + struct.pack(">HH", 2, 77))
+    b = L.adu("socket", tid_b, 1, bytes([3]) + struct.pack(">HH", 2, 1))
+    rec = L.run(fe, "socket", {"single": True, "bcast": False, "ignore": False}, [(0, "ok")], [(a[:cut], 1), (b, 2)])
+    got = [(L.split_adus("socket", data), dest) for data, dest in rec.raw]
+    ok = len(got) == 1 and got[0][1] == 2 and got[0][0] is not None and len(got[0][0]) == 1 \
+        and got[0][0][0][0] == tid_b and got[0][0][0][2] == 3
+    return ok, rec
+
+
+def udp_sender_isolation(tier):
+    r = common.rng("C09.udp")
+    fails, keys = [], []
+    for fe in ("sync_udp", "aio_udp"):
+        # cuts inside the 7-byte MBAP prefix fall into the socket framer's `_process(error=True)` branch, an open
+        # C06 finding (FRAMEWORK.md repair 5, "buffer 1..7 bytes"); the statement is checked where framing holds
+        for cut in range(8, 12):
+            for _ in range(3 if tier == "quick" else 30):
+                ta, tb = r.choice(L.TIDS + [r.randrange(65536)]), r.randrange(1, 65536)
+                if ta == tb:
+                    tb ^= 1
+                ok, rec = udp_isolation_one(fe, cut, ta, tb)
+                keys.append((fe, cut, ta, tb))
+                if not ok:
+                    fails.append({"scenario": {"fe": fe, "framer": "socket", "cut": cut, "tid_a": ta, "tid_b": tb},
+                                  "observed": L.observation(rec)})
+    return {"evaluations": len(keys), "failures": fails, "broken": [], "samples": [], "keys": keys}
 
 
 # ----------------------------------------------------------------------------- findings
@@ -203,6 +235,12 @@ def classify(suite, desc):
     if suite == "twisted-udp-entry":
         if sc["fe"] == "tw_udp" and "TypeError" in desc["observed"]["escaped"]:
             return "F-C09-twisted-udp-dead"
+        return None
+    if suite == "udp-sender-isolation":
+        # the asyncio datagram handler keeps ONE framer buffer for all senders; a truncated datagram with a complete
+        # MBAP header (>= 8 bytes) stays buffered and swallows the head of the next sender's datagram
+        if sc["fe"] == "aio_udp" and sc["cut"] >= 8:
+            return "F-C09-asyncio-udp-shared-buffer"
         return None
     if suite == "serve":
         # Twisted UDP _send has no should_respond gate: a listen-only response is transmitted
@@ -228,6 +266,9 @@ def _witness_scenario(w):
 
 def replay_finding(f):
     w = f["witness"]
+    if f["id"] == "F-C09-asyncio-udp-shared-buffer":
+        ok, _ = udp_isolation_one(w["fe"], w["cut"], w["tid_a"], w["tid_b"])
+        return not ok
     sc = _witness_scenario(w)
     if f["id"] == "F-C09-twisted-udp-dead":
         rec = L.run_scenario(sc)
@@ -254,7 +295,44 @@ def replay_case(suite, desc):
         ok, rec = e2e_one(sc)
         print(json.dumps(L.observation(rec))[:1500])
         return not ok
+    if suite == "udp-sender-isolation":
+        ok, rec = udp_isolation_one(sc["fe"], sc["cut"], sc["tid_a"], sc["tid_b"])
+        print(json.dumps(L.observation(rec))[:1500])
+        return not ok
     return True
+
+
+def _fails(chk, sc, tagname):
+    from lib import coqrun
+    c, _ = make_case(sc)
+    r = coqrun.eval_cases(tagname, IMPORTS, chk, [c.term])
+    return bool(r["propfail"]), c
+
+
+def shrink_serve(chk, desc, tagname):
+    """delete-one-request / one-unit shrinking of a failing serve scenario (re-runs the real front-end each time)"""
+    import copy
+    sc = copy.deepcopy(desc["scenario"])
+    best = None
+    progress = True
+    while progress and len(sc["reqs"]) > 1:
+        progress = False
+        for i in range(len(sc["reqs"])):
+            cand = copy.deepcopy(sc)
+            del cand["reqs"][i]
+            cand["groups"] = [[j - (j > i) for j in g if j != i] for g in cand["groups"]]
+            cand["groups"] = [g for g in cand["groups"] if g]
+            bad, c = _fails(chk, cand, tagname)
+            if bad:
+                sc, best, progress = cand, c, True
+                break
+    return best.desc if best is not None else None
+
+
+def shrink(suite, desc):
+    if suite == "serve":
+        return shrink_serve(CHK, desc, "C09_shrink")
+    return None
 
 
 MANIFEST = {
